@@ -56,9 +56,16 @@ class Element(abc.MutableSequence):
     All xml/html entities inherit from this class.
     """
 
-    def __init__(self, name: str = "", attr: dict | None = None) -> None:
-        """Initialise the element."""
+    def __init__(
+        self, name: str = "", attr: dict | None = None, raw: str | None = None
+    ) -> None:
+        """Initialise the element.
+
+        :param raw: the source text of the (start) tag, which is then rendered
+            as is, rather than rebuilt from the name and attributes
+        """
         self.name = name
+        self.raw = raw
         self.attrs: Attribute = Attribute(attr or {})
         self._parent: Element | None = None
         self._children: list[Element] = []
@@ -114,7 +121,7 @@ class Element(abc.MutableSequence):
 
     def deepcopy(self) -> Element:
         """Recursively copy and remove parent."""
-        _copy = self.__class__(self.name, self.attrs)
+        _copy = self.__class__(self.name, self.attrs, self.raw)
         for child in self:
             _copy_child = child.deepcopy()
             _copy.append(_copy_child)
@@ -142,6 +149,11 @@ class Element(abc.MutableSequence):
 
     def __str__(self) -> str:
         return self.render()
+
+    def _render_start(self, close: str = ">") -> str:
+        if self.raw is not None:
+            return self.raw
+        return f"<{self.name}{' ' if self.attrs else ''}{self.attrs}{close}"
 
     def __eq__(self, item: Any) -> bool:
         return item is self
@@ -222,7 +234,7 @@ class Tag(Element):
         if tag_overrides and self.name in tag_overrides:
             return tag_overrides[self.name](self, tag_overrides)
         return (
-            f"<{self.name}{' ' if self.attrs else ''}{self.attrs}>"
+            self._render_start()
             + "".join(
                 child.render(tag_overrides=tag_overrides, **kwargs) for child in self
             )
@@ -240,14 +252,14 @@ class XTag(Element):
     ) -> str:
         if tag_overrides is not None and self.name in tag_overrides:
             return tag_overrides[self.name](self, tag_overrides)
-        return f"<{self.name}{' ' if self.attrs else ''}{self.attrs}/>"
+        return self._render_start("/>")
 
 
 class VoidTag(Element):
     """Represent tags with no children, only start tag, like `<img src="t.gif" >`"""
 
     def render(self, **kwargs) -> str:  # type: ignore[override]
-        return f"<{self.name}{' ' if self.attrs else ''}{self.attrs}>"
+        return self._render_start()
 
 
 class TerminalElement(Element):
@@ -329,26 +341,26 @@ class Tree:
         """Return the last pointer which point to the actual tag scope."""
         return self.stack[-1]
 
-    def nest_tag(self, name: str, attrs: dict):
+    def nest_tag(self, name: str, attrs: dict, raw: str | None = None):
         """Nest a given tag at the bottom of the tree using
         the last stack's pointer.
         """
         pointer = self.stack.pop()
-        item = Tag(name, attrs)
+        item = Tag(name, attrs, raw)
         pointer.append(item)
         self.stack.append(pointer)
         self.stack.append(item)
 
-    def nest_xtag(self, name: str, attrs: dict):
+    def nest_xtag(self, name: str, attrs: dict, raw: str | None = None):
         """Nest an XTag onto the tree."""
         top = self.last()
-        item = XTag(name, attrs)
+        item = XTag(name, attrs, raw)
         top.append(item)
 
-    def nest_vtag(self, name: str, attrs: dict):
+    def nest_vtag(self, name: str, attrs: dict, raw: str | None = None):
         """Nest a VoidTag onto the tree."""
         top = self.last()
-        item = VoidTag(name, attrs)
+        item = VoidTag(name, attrs, raw)
         top.append(item)
 
     def nest_terminal(self, klass: type[TerminalElement], data: str):
@@ -421,14 +433,16 @@ class HtmlToAst(HTMLParser):
 
     def handle_starttag(self, name: str, attr):
         """When found an opening tag then nest it onto the tree."""
+        # the source text is kept, since it can not be rebuilt from name and attr
+        # (quoting, character references, white space, repeated attributes)
         if name in self.void_elements:
-            self.struct.nest_vtag(name, attr)
+            self.struct.nest_vtag(name, attr, self.get_starttag_text())
         else:
-            self.struct.nest_tag(name, attr)
+            self.struct.nest_tag(name, attr, self.get_starttag_text())
 
     def handle_startendtag(self, name: str, attr):
         """When found a XHTML tag style then nest it up to the tree."""
-        self.struct.nest_xtag(name, attr)
+        self.struct.nest_xtag(name, attr, self.get_starttag_text())
 
     def handle_endtag(self, name: str):
         """When found a closing tag then makes it point to the right scope."""
